@@ -495,7 +495,9 @@ func c19Client(t *testing.T, r *hx.Run) {
 		name string
 		a, b types.Type
 	}
-	al := func(rhs types.Type) types.Type { return types.NewAlias(types.NewTypeName(0, pkg.Types, "AL", nil), rhs) }
+	al := func(rhs types.Type) types.Type {
+		return types.NewAlias(types.NewTypeName(0, pkg.Types, "AL", nil), rhs)
+	}
 	pairs := []pair{
 		{"[]string rebuilt", types.NewSlice(str), types.NewSlice(str)},
 		{"alias of []string", types.NewSlice(str), al(types.NewSlice(str))},
